@@ -38,6 +38,13 @@ def _isolate_rules() -> None:
                     return __fn(*a, **k)
                 except AnalysisError as e:
                     return [Instance("R-ANCHOR", f"{__name}#anchor", UNDET, f"{e}", "")]
+                except Exception as e:  # pylint: disable=broad-except
+                    # the rule met a shape of code it was not written for (a signature it indexes into changed, ...): it decides
+                    # nothing on this tree; the other rules stand.  On the unchanged tree this shows as `undecided=1` at once.
+                    import traceback
+
+                    tb = traceback.extract_tb(e.__traceback__)[-1]
+                    return [Instance("R-ANCHOR", f"{__name}#crash", UNDET, f"rule stopped with {type(e).__name__}: {e} at {tb.filename.split('/')[-1]}:{tb.lineno}", "")]
 
             functools.update_wrapper(wrapper, fn)
             wrapper._isolated = True  # type: ignore[attr-defined]
